@@ -66,11 +66,6 @@ Proof.
 Qed.
 
 (* ------------------------------------------------------------------ what "covered" means *)
-Definition resetting_write (c f : string) (w : write) : Prop :=
-  w_class w = c /\ w_field w = f /\
-  ((w_sub w = "" /\ In (w_how w) reset_hows) \/
-   exists s, In s specials /\ sp_class s = c /\ sp_field s = f /\ In (w_sub w) (sp_subs s) /\ w_how w = sp_how s).
-
 Lemma write_is_spec : forall c f sub how w, write_is c f sub how w = true ->
   w_class w = c /\ w_field w = f /\ w_sub w = sub /\ w_how w = how.
 Proof.
@@ -78,22 +73,57 @@ Proof.
   apply String.eqb_eq in H, H0, H1, H2. auto.
 Qed.
 
-(* a covered member has, in the write set, a plain resetting write, or ALL sub-writes of one reviewed special idiom *)
-Lemma covered_spec : forall ws c f, covered ws c f = true ->
-  (exists w, In w ws /\ w_class w = c /\ w_field w = f /\ w_sub w = "" /\ In (w_how w) reset_hows) \/
-  (exists s, In s specials /\ sp_class s = c /\ sp_field s = f /\
-             forall sub, In sub (sp_subs s) -> exists w, In w ws /\ w_class w = c /\ w_field w = f /\ w_sub w = sub /\ w_how w = sp_how s).
+(* the write hits the object being reset, unconditionally or under a reviewed guard of the route *)
+Definition applies_prop (r : route) (w : write) : Prop :=
+  In (w_obj w) (r_objs r) /\ (w_guard w = "" \/ In (w_guard w) (r_guards r)).
+
+Lemma applies_spec : forall r w, applies r w = true -> applies_prop r w.
 Proof.
-  intros ws c f H. unfold covered in H. apply orb_prop in H. destruct H as [H|H].
-  - left. unfold covered_plain in H. apply existsb_exists in H. destruct H as [w [Hw H]].
-    repeat (apply andb_prop in H; destruct H as [H ?]).
-    apply String.eqb_eq in H, H1, H2. apply mem_In in H0. exists w. auto.
-  - right. unfold covered_special in H. apply existsb_exists in H. destruct H as [s [Hs H]].
+  unfold applies, applies_prop. intros r w H. apply andb_prop in H. destruct H as [H1 H2].
+  apply mem_In in H1. split; [exact H1|]. apply orb_prop in H2. destruct H2 as [H2|H2].
+  - left. apply String.eqb_eq in H2. exact H2.
+  - right. apply mem_In in H2. exact H2.
+Qed.
+
+Definition plain_write (c f : string) (w : write) : Prop :=
+  w_class w = c /\ w_field w = f /\ w_sub w = "" /\ In (w_how w) reset_hows.
+
+Lemma plain_sel_spec : forall c f w, plain_sel c f w = true -> plain_write c f w.
+Proof.
+  unfold plain_sel, plain_write. intros c f w H. repeat (apply andb_prop in H; destruct H as [H ?]).
+  apply String.eqb_eq in H, H1, H2. apply mem_In in H0. auto.
+Qed.
+
+(* a covered member has, in the write set of the route,
+   (1) a resetting write of the whole member applied to the object being reset (unconditional / reviewed guard), or
+   (2) two such writes in the two branches of one condition, or
+   (3) ALL sub-writes of one reviewed special idiom, each applied to the object being reset *)
+Lemma covered_spec : forall r ws c f, covered r ws c f = true ->
+  (exists w, In w ws /\ plain_write c f w /\ applies_prop r w) \/
+  (exists w1 w2, In w1 ws /\ In w2 ws /\ plain_write c f w1 /\ plain_write c f w2 /\
+                 In (w_obj w1) (r_objs r) /\ In (w_obj w2) (r_objs r) /\ w_guard w2 = String.append "!" (w_guard w1)) \/
+  (exists s, In s specials /\ sp_class s = c /\ sp_field s = f /\
+             forall sub, In sub (sp_subs s) ->
+               exists w, In w ws /\ w_class w = c /\ w_field w = f /\ w_sub w = sub /\ w_how w = sp_how s /\ applies_prop r w).
+Proof.
+  intros r ws c f H. unfold covered in H. apply orb_prop in H. destruct H as [H|H].
+  - unfold covered_plain in H. apply orb_prop in H. destruct H as [H|H].
+    + left. apply existsb_exists in H. destruct H as [w [Hw H]]. apply andb_prop in H. destruct H as [H1 H2].
+      exists w. split; [exact Hw|]. split; [apply plain_sel_spec; exact H1 | apply applies_spec; exact H2].
+    + right. left. unfold applies_both in H. apply existsb_exists in H. destruct H as [w1 [Hw1 H]].
+      apply andb_prop in H. destruct H as [H H2]. apply andb_prop in H. destruct H as [Hs1 Ho1].
+      apply existsb_exists in H2. destruct H2 as [w2 [Hw2 H2]].
+      apply andb_prop in H2. destruct H2 as [H2 Hg]. apply andb_prop in H2. destruct H2 as [Hs2 Ho2].
+      exists w1, w2. apply mem_In in Ho1, Ho2. apply String.eqb_eq in Hg.
+      repeat split; auto; try (apply plain_sel_spec; assumption).
+      all: try (destruct (plain_sel_spec _ _ _ Hs1) as [? [? [? ?]]]; assumption).
+      all: try (destruct (plain_sel_spec _ _ _ Hs2) as [? [? [? ?]]]; assumption).
+  - right. right. unfold covered_special in H. apply existsb_exists in H. destruct H as [s [Hs H]].
     repeat (apply andb_prop in H; destruct H as [H ?]).
     apply String.eqb_eq in H, H1. exists s. repeat split; auto.
     intros sub Hsub. rewrite forallb_forall in H0. specialize (H0 sub Hsub).
-    apply existsb_exists in H0. destruct H0 as [w [Hw Hw2]]. apply write_is_spec in Hw2.
-    exists w. tauto.
+    apply existsb_exists in H0. destruct H0 as [w [Hw Hw2]]. apply andb_prop in Hw2. destruct Hw2 as [Hw2 Ha].
+    apply write_is_spec in Hw2. apply applies_spec in Ha. exists w. tauto.
 Qed.
 
 Lemma route_writes_sound : forall fs r w, In w (route_writes fs r) ->
@@ -106,7 +136,7 @@ Qed.
 (* ------------------------------------------------------------------ soundness of check_all *)
 Lemma check_all_sound : forall cs fs, check_all cs fs = true ->
   forall r c f, In r routes -> In c (r_classes r) -> In f (fields_of cs c) ->
-    covered (route_writes fs r) c f = true \/ is_persistent r c f = true.
+    covered r (route_writes fs r) c f = true \/ is_persistent r c f = true.
 Proof.
   intros cs fs H r c f Hr Hc Hf. unfold check_all in H. apply andb_prop in H. destruct H as [H _].
   rewrite forallb_forall in H. specialize (H r Hr). unfold check_route in H.
@@ -166,18 +196,26 @@ Section ResetIsInit.
   Qed.
 End ResetIsInit.
 
-Lemma covered_means_written : forall fs r c f, covered (route_writes fs r) c f = true ->
-    (exists w n rt, In rt (r_roots r) /\ calls_star fs (rt_fn rt) n /\ In w (writes_of fs n) /\
-                    w_class w = c /\ w_field w = f /\ w_sub w = "" /\ In (w_how w) reset_hows) \/
-    (exists s, In s specials /\ sp_class s = c /\ sp_field s = f /\
-       forall sub, In sub (sp_subs s) ->
-         exists w n rt, In rt (r_roots r) /\ calls_star fs (rt_fn rt) n /\ In w (writes_of fs n) /\
-                        w_class w = c /\ w_field w = f /\ w_sub w = sub /\ w_how w = sp_how s).
+(* where a write of the route's write set comes from *)
+Definition from_route (fs : list func_decl) (r : route) (w : write) : Prop :=
+  exists n rt, In rt (r_roots r) /\ calls_star fs (rt_fn rt) n /\ In w (writes_of fs n).
+
+Lemma covered_means_written : forall fs r c f, covered r (route_writes fs r) c f = true ->
+  (exists w, from_route fs r w /\ plain_write c f w /\ applies_prop r w) \/
+  (exists w1 w2, from_route fs r w1 /\ from_route fs r w2 /\ plain_write c f w1 /\ plain_write c f w2 /\
+                 In (w_obj w1) (r_objs r) /\ In (w_obj w2) (r_objs r) /\ w_guard w2 = String.append "!" (w_guard w1)) \/
+  (exists s, In s specials /\ sp_class s = c /\ sp_field s = f /\
+     forall sub, In sub (sp_subs s) ->
+       exists w, from_route fs r w /\ w_class w = c /\ w_field w = f /\ w_sub w = sub /\ w_how w = sp_how s /\ applies_prop r w).
 Proof.
-  intros fs r c f H. apply covered_spec in H. destruct H as [[w [Hw H]]|[s [Hs [H1 [H2 H3]]]]].
-  - left. destruct (route_writes_sound fs r w Hw) as [n [rt [Hr [Hc Hin]]]]. exists w, n, rt. tauto.
-  - right. exists s. repeat split; auto. intros sub Hsub. destruct (H3 sub Hsub) as [w [Hw H]].
-    destruct (route_writes_sound fs r w Hw) as [n [rt [Hr [Hc Hin]]]]. exists w, n, rt. tauto.
+  intros fs r c f H. apply covered_spec in H. destruct H as [[w [Hw H]]|[[w1 [w2 [Hw1 [Hw2 H]]]]|[s [Hs [H1 [H2 H3]]]]]].
+  - left. exists w. split; [|exact H]. destruct (route_writes_sound fs r w Hw) as [n [rt [Hr [Hc Hin]]]]. exists n, rt. auto.
+  - right. left. exists w1, w2.
+    destruct (route_writes_sound fs r w1 Hw1) as [n1 [rt1 [Hr1 [Hc1 Hin1]]]].
+    destruct (route_writes_sound fs r w2 Hw2) as [n2 [rt2 [Hr2 [Hc2 Hin2]]]].
+    split; [exists n1, rt1; auto|]. split; [exists n2, rt2; auto|]. exact H.
+  - right. right. exists s. repeat split; auto. intros sub Hsub. destruct (H3 sub Hsub) as [w [Hw H]].
+    exists w. split; [|exact H]. destruct (route_writes_sound fs r w Hw) as [n [rt [Hr [Hc Hin]]]]. exists n, rt. auto.
 Qed.
 
 (* statement in the shape used by Properties_C16.v *)
